@@ -7,7 +7,8 @@ verus! {
 //@item src/crc32.rs | struct Crc32Reader
 
 // ghost: an adapter is not a device
-impl<R> Dev for Crc32Reader<R> {
+impl<R: Dev> Dev for Crc32Reader<R> {
+    open spec fn g_ready(&self) -> bool { self.inner.g_ready() }
     open spec fn g_dev(&self) -> bool { false }
     open spec fn g_bytes(&self) -> Seq<u8> { Seq::empty() }
     open spec fn g_pos(&self) -> int { 0 }
